@@ -2,7 +2,7 @@ import RNacos.Model.LogFile
 import RNacos.Driver.Util
 /-
 Line protocol of model `logfile` (C02/C03, one log file = `LogInnerManager`).
-  open <start> <preTerm> <split> | reopen [<start> <preTerm> <split>]   -> ok end=<e> term=<t>
+  open <start> <preTerm> <split> [geom=<interval>,<area>] | reopen [<start> <preTerm> <split>]   -> ok end=<e> term=<t>
   w <index> <term> <len> <seed>     -> ok | toend | full | idxerr
   strip <k>                         -> ok | err
   read <a> <b>                      -> recs n=<n> <i:t:len:fnv>…  | err
@@ -26,8 +26,8 @@ def trimZeros (bs : List Nat) : List Nat := (bs.reverse.dropWhile (· == 0)).rev
 
 def n (s : String) : Nat := s.toNat?.getD 0
 
-def doOpen (st : St) (p : Nat × Nat × Nat) : St × String :=
-  let f := init st.disk st.fileLen p.1 p.2.1 p.2.2
+def doOpen (st : St) (p : Nat × Nat × Nat) (geom : Nat × Nat := (128, 4096)) : St × String :=
+  let f := init st.disk st.fileLen p.1 p.2.1 p.2.2 geom.1 geom.2
   ({ disk := f.bytes, fileLen := f.fileLen, params := p, mem := some f }, s!"ok end={endIndex f} term={f.lastTerm}")
 
 def withMem (st : St) (g : LogFile → St × String) : St × String :=
@@ -38,6 +38,10 @@ def withMem (st : St) (g : LogFile → St × String) : St × String :=
 def step (st : St) (ws : List String) : St × String :=
   match ws with
   | ["open", a, b, c] => doOpen st (n a, n b, n c)
+  | ["open", a, b, c, g] =>
+    match ((g.drop 5).toString.splitOn ",").map n with
+    | [i, e] => doOpen st (n a, n b, n c) (i, e)
+    | _ => (st, "bad-op")
   | ["reopen", a, b, c] => doOpen st (n a, n b, n c)
   | ["reopen"] => doOpen st st.params
   | ["w", i, t, l, sd] => withMem st fun f =>
@@ -89,6 +93,7 @@ def specOp (s : SpecSt) (op ans : List String) : SpecSt × String :=
       | none => (s, "spec ok")
   match op with
   | ["open", a, b, c] => checkOpen { s with start := n a, preTerm := n b, split := max (n c) (n a) }
+  | ["open", a, b, c, _] => checkOpen { s with start := n a, preTerm := n b, split := max (n c) (n a) }
   | ["reopen", a, b, c] => checkOpen { s with start := n a, preTerm := n b, split := max (n c) (n a) }
   | ["reopen"] => checkOpen s
   | ["w", i, t, l, sd] =>
@@ -121,6 +126,7 @@ def specOp (s : SpecSt) (op ans : List String) : SpecSt × String :=
 
 def specStep (s : SpecSt) (ws : List String) : SpecSt × String :=
   match ws with
+  | [">", "closed"] => ({ s with pending := [] }, "-")     -- nothing is open: not a statement about the log
   | ">" :: ans => specOp { s with pending := [] } s.pending ans
   | _ => ({ s with pending := ws }, "")
 
